@@ -439,6 +439,7 @@ def run_case(ctx, rng, case):
                 **info, "variant": label, "variant_repr": repr(vb)[:300], "witness": enc(w),
                 "base_accepts": accepts(base, w), "variant_accepts": accepts(vs, w),
                 "only_ellipsis_vs_any": only_ellipsis_vs_any(base, vs)})
+    derived_after_comparison(ctx, rng, base, s1, info)
     # schema == non-schema value  <=>  validates
     z = zoo()
     z.pop("big_str", None)
@@ -462,6 +463,83 @@ def run_case(ctx, rng, case):
         if a != (not errs) or na == a:
             ctx.violation("schema_eq_value_differs_from_validation", {**info, "value": enc(v), "eq": a, "ne": na,
                                                                       "validates": not errs})
+
+
+def derivations(spec, rng):
+    """(label, function schema -> schema) pairs that derive a new schema from an existing object through the public
+    operations that go through Props.set / Props.update."""
+    from d42 import schema
+    from d42.utils import make_required
+    from ..gen_subst import is_plain
+    out = []
+    try:
+        w = witness(spec, rng)
+        if is_plain(w) and w == w:
+            out.append(("subst", lambda s: s % w))
+    except Unsat:
+        pass
+    k = spec.get("k")
+    if k == "dict" and spec.get("keys") is not None:
+        out.append(("plus", lambda s: s + schema.dict({"rv_new_key": schema.int})))
+        out.append(("make_required", lambda s: make_required(s)))
+    if k in ("int", "float") and spec.get("value") is None:
+        big = 10 ** 40 if k == "int" else 1e300
+        if spec.get("max") is None:
+            out.append(("max", lambda s: s.max(big)))
+        if spec.get("min") is None:
+            out.append(("min", lambda s: s.min(-big)))
+    if k == "str" and all(spec.get(x) is None for x in ("value", "len", "pattern")):
+        out.append(("len", lambda s: s.len(0, ...)))
+    if k == "list" and spec.get("len") is None:
+        out.append(("len", lambda s: s.len(0, ...)))
+    return out
+
+
+def derived_after_comparison(ctx, rng, base, s1, info):
+    """Equality must not depend on what an operand (or the object it was derived from) has been compared with before:
+    the same derivation applied to s1 - compared many times above - and to a fresh, never compared build of the same
+    spec must give equal schemas that stand in the same relation to their origins."""
+    for label, fn in derivations(base, rng):
+        fresh = O.try_build(ctx, copy.deepcopy(base))
+        if fresh is None:
+            return
+
+        def run(s):
+            try:
+                return fn(s), None
+            except Exception as e:  # noqa
+                return None, e
+        (d1, x1), (d2, x2) = run(s1), run(fresh)
+        ctx.count("derivations_after_comparison")
+        ctx.table("derivations", label)
+        if x1 is not None or x2 is not None:
+            if type(x1) is not type(x2):
+                ctx.violation("derivation_outcome_depends_on_history", {**info, "derivation": label,
+                                                                        "compared": repr(x1)[:150], "fresh": repr(x2)[:150]})
+            continue
+        try:
+            e12, e21, ne = bool(d1 == d2), bool(d2 == d1), bool(d1 != d2)
+            r1, r2 = bool(d1 == s1), bool(d2 == fresh)
+            r1b, r2b = bool(s1 == d1), bool(fresh == d2)
+        except Exception as e:  # noqa
+            ctx.violation("eq_raised", {**info, "derivation": label, "exc": O.exc_info(e)})
+            continue
+        if not (e12 and e21) or ne:
+            ctx.violation("same_derivation_of_equal_schemas_not_equal", {
+                **info, "derivation": label, "derived_from_compared": repr(d1)[:200], "derived_from_fresh": repr(d2)[:200],
+                "d1==d2": e12, "d2==d1": e21})
+        if r1 != r2 or r1b != r2b:
+            ctx.violation("eq_with_origin_depends_on_comparison_history", {
+                **info, "derivation": label, "derived": repr(d1)[:200], "derived==origin (compared before)": [r1, r1b],
+                "derived==origin (fresh)": [r2, r2b]})
+        for v in probe_values(base, rng)[:6]:
+            ea, xa = O.real_validate(d1, v)
+            eb, xb = O.real_validate(d2, v)
+            if xa is None and xb is None and bool(ea) != bool(eb):
+                ctx.violation("equal_schemas_different_verdicts", {**info, "derivation": label, "value": enc(v),
+                                                                   "a": repr(d1)[:200], "b": repr(d2)[:200],
+                                                                   "only_ellipsis_vs_any": False})
+                break
 
 
 def required(m, tier):
